@@ -644,6 +644,15 @@ def _stateless(c, cls, pname, lid, nonneg):
     finally:
         heap.LOOPSPEC.pop(lid, None)
     c.ob('target-has-exactly-the-keys-of-this-call', IFF(HAS(res, w), HAS(wts, w)) if c.mode == 'sym' else set(res) == set(wts))
+    if c.mode == 'conc':
+        # run-time form of statelessness: a FRESH sizer object gives the same target for the same arguments
+        fresh = setup(c, cls, param, pname)[0]
+        try:
+            ref = fresh(dt, dict(wts))
+        except ValueError:
+            ref = None
+        c.ob('target-equals-that-of-a-fresh-sizer', ref is not None and set(res) == set(ref)
+             and all(res[k]['quantity'] == ref[k]['quantity'] for k in ref))
 
 
 @harness('DollarWeightedCashBufferedOrderSizer.stateless', props=['C10'], also=['C09'], layer='L3',
